@@ -107,6 +107,10 @@ func (it *Generator) Send(arg Object) (Object, error) {
 	if it.Frame.Yielded {
 		return res, nil
 	}
+	if res != nil && res != None {
+		// the value of 'return value' in the generator travels in the StopIteration
+		return nil, &Exception{Base: StopIteration, Args: Tuple{res}, Dict: make(StringDict)}
+	}
 	return nil, StopIteration
 }
 
